@@ -137,6 +137,15 @@ def opLine (q : QSt) (ws : List String) : QSt × String :=
         | r => (q, status r ++ " " ++ showState q)
       else (q, "bad-op")
     | _, _ => (q, "bad-op")
+  | ["replace", pi, b0, b1] =>
+    match pi.toNat?, b0.toNat?, b1.toNat? with
+    | some pi, some b0, some b1 =>
+      if pi < np then
+        match replacePair q.cfg q.st pi b0 b1 with
+        | .ok s' => let q' := { q with st := s' }; (q', "ok " ++ showState q')
+        | r => (q, status r ++ " " ++ showState q)
+      else (q, "bad-op")
+    | _, _, _ => (q, "bad-op")
   | ["collect", pi] =>
     match pi.toNat? with
     | some pi =>
